@@ -92,7 +92,7 @@ func tierDeadline(tier string) time.Duration {
 	if tier == "thorough" {
 		return 25 * time.Minute
 	}
-	return 4 * time.Minute
+	return 12 * time.Minute
 }
 
 // ---------------------------------------------------------------------------------------------
@@ -121,7 +121,10 @@ func cmdWorker(args []string) int {
 	for i, sc := range scs {
 		// the time budget is shared fairly: every scenario gets an equal part of what is left, so a big scenario that
 		// hits its cap (reported as exhaustive:false with the depth completed) cannot starve the ones after it
-		sdl := time.Now().Add(time.Until(dl) / time.Duration(len(scs)-i))
+		sdl := dl
+		if *tier == "thorough" {
+			sdl = time.Now().Add(time.Until(dl) / time.Duration(len(scs)-i))
+		}
 		w := world.New(sc.Cfg)
 		ex := engine.NewExplorer(w, sc, *shard, *of, *out, sdl)
 		ex.ConfWant = 1
@@ -276,6 +279,7 @@ func cmdCheck(args []string) int {
 	}
 	var merged engine.Stats
 	merged.OKByKind, merged.FailByKind, merged.DistinctOuts = map[string]int{}, map[string]int{}, map[string]int{}
+	merged.PanicKinds = map[string]int{}
 	merged.Exhaustive = true
 	findings := map[string]engine.Finding{}
 	scenOf := map[string]string{}
@@ -401,6 +405,9 @@ func cmdCheck(args []string) int {
 				}
 				for k, v := range st.FailByKind {
 					merged.FailByKind[k] += v
+				}
+				for k, v := range st.PanicKinds {
+					merged.PanicKinds[k] += v
 				}
 				for _, f := range o.Findings {
 					if old, ok := findings[f.Sig()]; !ok || len(f.Trace) < len(old.Trace) {
@@ -590,6 +597,7 @@ func cmdCheck(args []string) int {
 		cov["successful_transitions_by_kind"] = merged.OKByKind
 		cov["rejected_transitions_by_kind"] = merged.FailByKind
 		cov["tx_panics_recovered"] = merged.PanicTx
+		cov["tx_panic_kinds"] = merged.PanicKinds
 		cov["tx_out_of_gas"] = merged.OutOfGas
 		cov["chain_halts_met"] = merged.Halts
 		cov["height_jumps"] = merged.Jumps
